@@ -244,6 +244,10 @@ pub enum Expect {
     Nat(usize),
     Nats(Vec<usize>),
     Raw(Val),
+    /// `some([s…])` with `sᵢ·G == pᵢ`
+    SomeG1s(Vec<G1Affine>),
+    /// `[none | some(s) …]`
+    OptG1List(Vec<Option<G1Affine>>),
 }
 
 impl Expect {
@@ -271,6 +275,18 @@ impl Expect {
                 .as_ref()
                 == Some(ns),
             Expect::Raw(r) => r == v,
+            Expect::SomeG1s(ps) => match v.as_opt() {
+                Some(Some(inner)) => inner.as_frs().map(|ss| ss.len() == ps.len() && g1s(&ss) == *ps).unwrap_or(false),
+                _ => false,
+            },
+            Expect::OptG1List(ps) => match v.as_list() {
+                Some(l) if l.len() == ps.len() => l.iter().zip(ps).all(|(x, p)| match (x.as_opt(), p) {
+                    (Some(None), None) => true,
+                    (Some(Some(s)), Some(p)) => s.as_fr().map(|s| g1(s) == *p).unwrap_or(false),
+                    _ => false,
+                }),
+                _ => false,
+            },
         }
     }
     fn describe(&self) -> String {
@@ -285,6 +301,8 @@ impl Expect {
             Expect::Nat(n) => format!("{}", n),
             Expect::Nats(n) => format!("{:?}", n),
             Expect::Raw(r) => r.to_string(),
+            Expect::SomeG1s(v) => format!("some({} G1-elements)", v.len()),
+            Expect::OptG1List(v) => format!("{} optional G1-elements", v.len()),
         }
     }
 }
